@@ -1228,9 +1228,7 @@ def numeric_intervals_from_zeroes(
         z3.Z3_OP_RE_PLUS,
     ] and numeric_intervals_from_regex(regex.children()[0]).map(
         lambda intervals: intervals == [(0, 0)]
-    ).value_or(
-        lambda: False
-    ):
+    ).value_or(False):
         return Some([(0, 0)])
     else:
         return fallback(regex)
@@ -1371,7 +1369,7 @@ def numeric_intervals_from_concat(
         and (
             numeric_intervals_from_regex(children[0])
             .map(lambda first_intervals: first_intervals == [(1, 9)])
-            .value_or(lambda: False)
+            .value_or(False)
         )
         and children[1].decl().kind() == z3.Z3_OP_RE_PLUS
         and children[1].children()[0] == z3.Range("0", "9")
@@ -1383,7 +1381,7 @@ def numeric_intervals_from_concat(
         and (
             numeric_intervals_from_regex(children[0])
             .map(lambda first_intervals: first_intervals == [(0, 9)])
-            .value_or(lambda: False)
+            .value_or(False)
         )
         and children[1].decl().kind() in [z3.Z3_OP_RE_PLUS, z3.Z3_OP_RE_STAR]
         and children[1].children()[0] == z3.Range("0", "9")
